@@ -33,8 +33,11 @@ structure URL where
   hostname : Str := []
   port : Str := []
   Path : Str := []
+  escapedPath : Str := []
   deriving Repr, BEq, DecidableEq
 def URL.Scheme! (u : URL) : M Str := if u.isNil then (.error "invalid memory address or nil pointer dereference") else pure u.Scheme
+/-- `(*URL).EscapedPath()`: the path in the escaped form it was written in -/
+def URL.EscapedPath! (u : URL) : M Str := if u.isNil then (.error "invalid memory address or nil pointer dereference") else pure u.escapedPath
 def URL.Path! (u : URL) : M Str := if u.isNil then (.error "invalid memory address or nil pointer dereference") else pure u.Path
 /-- `(*URL).Hostname()` and `Port()` read `u.Host`: a nil receiver panics -/
 def URL.Hostname! (u : URL) : M Str := if u.isNil then (.error "invalid memory address or nil pointer dereference") else pure u.hostname
